@@ -20,6 +20,7 @@ import (
 	"runtime"
 	"sync"
 
+	"github.com/pingcap/kvproto/pkg/metapb"
 	"github.com/tikv/pd/server/core"
 	"github.com/tikv/pd/server/schedule/placement"
 	"verif/harness/lib/ev"
@@ -97,10 +98,16 @@ func (lw *liveWorld) note(format string, a ...interface{}) string {
 var defaultRule = &placement.Rule{GroupID: "pd", ID: "default", Role: placement.Voter, Count: 3}
 
 // mutate changes one thing in the cluster and in its description.
-func (lw *liveWorld) mutate(rng *rand.Rand) {
+func (lw *liveWorld) mutate(rng *rand.Rand) (nowCapable uint64) {
 	lw.mu.Lock()
 	defer lw.mu.Unlock()
 	w, cl := lw.w, lw.cl
+	defer func() {
+		// after the change: a store that is plainly able to lead now (for the follower probe)
+		if nowCapable != 0 && !w.clearlyLeaderCapable(nowCapable) {
+			nowCapable = 0
+		}
+	}()
 	switch x := rng.Intn(100); {
 	case x < 45: // a store changes state (heartbeat lost / back, offline, busy, paused, reject label)
 		s := &w.Stores[rng.Intn(len(w.Stores))]
@@ -113,6 +120,7 @@ func (lw *liveWorld) mutate(rng *rand.Rand) {
 			cl.PutStore(info)
 		}
 		lw.note("store %d -> %s", s.ID, st)
+		return s.ID
 	case x < 55: // a store is relabelled
 		s := &w.Stores[rng.Intn(len(w.Stores))]
 		s.Zone, s.Host = fmt.Sprintf("z%d", 1+rng.Intn(3)), fmt.Sprintf("h%d", 1+rng.Intn(2))
@@ -126,7 +134,7 @@ func (lw *liveWorld) mutate(rng *rand.Rand) {
 			sc := cl.GetScheduleConfig().Clone()
 			sc.EnableJointConsensus = !sc.EnableJointConsensus
 			cl.SetScheduleConfig(sc)
-			return
+			return 0
 		}
 		sc := cl.GetScheduleConfig().Clone()
 		sc.EnableJointConsensus = !sc.EnableJointConsensus
@@ -143,6 +151,7 @@ func (lw *liveWorld) mutate(rng *rand.Rand) {
 			cl.SetEnablePlacementRules(false)
 			w.Rules, w.RuleSet = "off", nil
 			lw.note("placement rules off")
+			return w.Stores[rng.Intn(len(w.Stores))].ID
 		case 1:
 			cl.SetEnablePlacementRules(true)
 			_ = cl.RuleManager.SetRule(defaultRule.Clone())
@@ -152,6 +161,7 @@ func (lw *liveWorld) mutate(rng *rand.Rand) {
 			lw.customIDs = nil
 			w.Rules, w.RuleSet = "default", nil
 			lw.note("placement rules: default")
+			return w.Stores[rng.Intn(len(w.Stores))].ID
 		default:
 			cl.SetEnablePlacementRules(true)
 			_ = cl.RuleManager.SetRule(defaultRule.Clone())
@@ -187,6 +197,37 @@ func (lw *liveWorld) mutate(rng *rand.Rand) {
 		}
 		lw.note("location labels %v", w.LocationLabels)
 	}
+	return 0
+}
+
+// followerProbe is the directed case after a store became plainly able to lead (heartbeat back, rules
+// relaxed, ...): a region led from another store whose expected role is follower, the fresh store a
+// requested voter. A builder that still sees the store as it was leaves the leader on the follower.
+func followerProbe(rn *runner, lw *liveWorld, rng *rand.Rand, capable uint64) {
+	w, hist := lw.snapshot()
+	var others []uint64
+	for _, sd := range w.Stores {
+		if sd.ID != capable {
+			others = append(others, sd.ID)
+		}
+	}
+	if len(others) == 0 {
+		return
+	}
+	a := others[rng.Intn(len(others))]
+	specs := []sim.PeerSpec{{Store: a, Role: metapb.PeerRole_Voter, Leader: true}, {Store: capable, Role: metapb.PeerRole_Voter}}
+	roles := []roleReq{{Store: a, Role: "follower"}, {Store: capable, Role: "voter"}}
+	if len(others) > 1 && rng.Intn(2) == 0 { // a third peer that changes too, so that plans with peer changes are probed as well
+		c := others[rng.Intn(len(others))]
+		if c != a {
+			specs = append(specs, sim.PeerSpec{Store: c, Role: metapb.PeerRole_Learner})
+			roles = append(roles, roleReq{Store: c, Role: "follower"})
+		}
+	}
+	o := originRegion(specs)
+	k := &kase{World: w, Origin: layoutString(specs), Req: request{API: apiMoveRegion, Roles: roles}, Family: "live-world", History: hist}
+	rn.exec(lw.cl, k, o, o.Info())
+	rn.st.count("live_follower_probes", 1)
 }
 
 // decoy puts ANOTHER version of region 1 into the cluster's region cache: the region object a caller
@@ -270,7 +311,9 @@ func livePhase(r *ev.Run, workers int, merge func(*stats)) {
 				for e := 0; e < events; e++ {
 					switch x := rng.Intn(20); {
 					case x < 5:
-						lw.mutate(rng)
+						if capable := lw.mutate(rng); capable != 0 {
+							followerProbe(rn, lw, rng, capable)
+						}
 						rn.st.count("live_world_changes", 1)
 					case x == 5:
 						lw.decoy(rng)
